@@ -214,9 +214,13 @@ class Gen:
             return {'k': 'let', 'args': args, 'body': self.body(depth + 1)}
         b = self.body(depth + 1, minn=1)
         if k == 'in':
+            # with prefix=P the loop's own variables answer for every name
+            # that starts with P, and report a miss under another name
+            opts = {'prefix': r.choice(['C', 'U', 'D', 'px'])} \
+                if r.random() < 0.4 else {}
             return {'k': 'in', 'src': {'site': r.choice(['SEQ2', 'SEQ1']),
                                        'how': 'name'},
-                    'opts': {}, 'body': b, 'else': None}
+                    'opts': opts, 'body': b, 'else': None}
         if k == 'with':
             return {'k': 'with', 'src': {'how': 'lit',
                                          'lit': '_.namespace(wv=1)'},
@@ -283,7 +287,9 @@ class Gen:
         self.nw += 1
         w, key = 'WM%d' % self.nw, 'UM%d' % self.nw
         site = '%s.%s' % (w, key)
-        self.script[w] = {'map': {}, 'computed': [key]}
+        self.script[w] = {'map': {}, 'computed': [key],
+                          'miss': r.choice([None, None, 'bytes', 'bare',
+                                            'msg'])}
         self.script[site] = {'rot': [r.choice(TRUTHY + [{'tok': site}]),
                                      r.choice(FALSY),
                                      r.choice(TRUTHY + FALSY)]}
